@@ -358,6 +358,7 @@ def run(ctx):
     ctx.do(c10.r10_7)
     from . import c02 as _c02
     ctx.do(_c02.r2_1)  # a delivered message gets a fresh UID (next_uid never steps back)
+    ctx.do(_c04.r4_11)  # .mh_sequences stays readable: no flag name breaks its line format
     from . import c04 as _c04
     ctx.do(_c04.r4_3)  # Seen / unseen stay complements through every flag helper
     ctx.note("periodic poll liveness (clean-up before the emptiness test of executing_tasks) is decided by C10 R10.7")
